@@ -733,6 +733,7 @@ Definition listener_children (k : kernel) (fd : N) (local : sockaddr) (rdy : lis
       match s_tcb (snd e), s_bound (snd e) with
       | Some t, Some b =>
           tstate_eqb (t_state t) SynReceived && (bk_port b =? snd local) &&
+          Bool.eqb (v6 (bk_addr b)) (v6 (fst local)) &&                       (* same family, fix 5937758 *)
           (is_unspec (fst local) || ip_eqb (bk_addr b) (fst local))
       | _, _ => false
       end) (socks k)).
